@@ -2,7 +2,7 @@ package main
 
 func init() {
 	props["C03"] = &propCfg{Engine: "nodesim", Test: "TestC03", Level: "exploration",
-		Quick: tierCfg{Runs: 960, JobSize: 60, BudgetS: 150}, Thorough: tierCfg{Runs: 32000, JobSize: 200, BudgetS: 1500}}
+		Quick: tierCfg{Runs: 480, JobSize: 30, BudgetS: 150}, Thorough: tierCfg{Runs: 24000, JobSize: 150, BudgetS: 1500}}
 	props["C04"] = &propCfg{Engine: "nodesim", Test: "TestC04", Level: "exploration",
-		Quick: tierCfg{Runs: 960, JobSize: 60, BudgetS: 150}, Thorough: tierCfg{Runs: 32000, JobSize: 200, BudgetS: 1500}}
+		Quick: tierCfg{Runs: 480, JobSize: 30, BudgetS: 150}, Thorough: tierCfg{Runs: 24000, JobSize: 150, BudgetS: 1500}}
 }
